@@ -5,12 +5,95 @@ from kv import Case, xn, xb, xl, xlist, xparse, xtext
 
 ID = "C19"
 MODULE = "C19"
-IMPORTS = "Bytes Quoted QuotedProofs"
+IMPORTS = "Bytes Quoted QuotedProofs Ctl CtlProofs"
 PROFILES = ("dev",)
-THEOREMS = []
-RULE = ""
-ASSUMPTIONS = []
-TRUSTED = []
+THEOREMS = [
+    ("split_encode_roundtrip",
+     "forall l : list str, quoted_str_split (join_sp (map encode_quoted_str l)) = l"),
+    ("wire_format_injective",
+     "forall l1 l2 : list str, join_sp (map encode_quoted_str l1) = join_sp (map encode_quoted_str l2) -> l1 = l2"),
+    ("client_args_arrive",
+     "forall (command a : str) (args : list str), quoted_str_split (client_message command (a :: args)) = command :: a :: args"),
+    ("client_plain_command_arrives",
+     "forall command : str, command <> [] -> forallb plain_char command = true -> "
+     "quoted_str_split (client_message command []) = [command]"),
+    ("ping_data_roundtrip",
+     "forall args : list str, quoted_str_split (ping_data args) = args"),
+    ("escaped_bounded",
+     "forall s : str, (escaped (run_state split_init s) <= 1)%N"),
+    ("utf8_decode_encode",
+     "forall s : str, all_scalar s = true -> utf8_decode (utf8_encode s) = Some s"),
+    ("frame_spec",
+     "forall (prepend : bytes) (data : option bytes), "
+     "frame prepend data = prepend ++ match data with Some (c :: d) => c_space :: c :: d | _ => [] end"),
+    ("ping_echo",
+     "forall (S : Type) (ps : plugins S) (args : list str) (s : S), "
+     "lookup_plugin (B \"ping\") ps = Some ping_plugin -> forallb all_scalar args = true -> "
+     "let reply := B \"ok\" ++ match args with [] => [] | _ => c_space :: utf8_encode (join_sp (map encode_quoted_str args)) end in "
+     "handle ps (utf8_encode (client_message (B \"ping\") args)) s = ({| hr_data := reply; hr_close := false |}, s) "
+     "/\\ client_reply_tokens reply = Some (B \"ok\" :: args)"),
+    ("dispatch_total",
+     "forall (S : Type) (ps : plugins S) (req : bytes) (s : S), let hr := fst (handle ps req s) in "
+     "(classify S ps req s <> CPluginOk -> starts_with (B \"error\") (hr_data hr) = true) /\\ "
+     "(classify S ps req s = CPluginOk -> starts_with (B \"ok\") (hr_data hr) = true) /\\ "
+     "(classify S ps req s = CBinary \\/ classify S ps req s = CUnknown -> hr_close hr = false /\\ snd (handle ps req s) = s)"),
+    ("client_reads_status_word",
+     "forall (prepend : bytes) (data : option bytes) (line : str), prepend = B \"ok\" \\/ prepend = B \"error\" -> "
+     "utf8_decode (frame prepend data) = Some line -> exists rest, quoted_str_split line = prepend :: rest"),
+    ("socket_persists",
+     "forall (S : Type) (ps : plugins S) (reqs : list bytes) (s : S), no_close S ps s reqs = true -> "
+     "fst (fst (run ps (Listening, s) reqs)) = Listening /\\ Forall answered (snd (run ps (Listening, s) reqs)) /\\ "
+     "length (snd (run ps (Listening, s) reqs)) = length reqs"),
+    ("socket_answers_until_close",
+     "forall (S : Type) (ps : plugins S) (pre : list bytes) (s : S) (c : bytes) (post : list bytes), "
+     "no_close S ps s pre = true -> "
+     "(let s1 := snd (fst (run ps (Listening, s) pre)) in hr_close (fst (handle ps c s1)) = true) -> "
+     "let res := run ps (Listening, s) (pre ++ c :: post) in fst (fst res) = Closed /\\ "
+     "exists ans last, length ans = length pre /\\ Forall answered ans /\\ answered last /\\ "
+     "snd res = ans ++ last :: repeat NoAnswer (length post)"),
+    ("clear_sees_host",
+     "forall (S : Type) (ps : plugins S) (uri_ok : str -> bool) (host : str) (s : S), "
+     "lookup_plugin (B \"clear\") ps = Some (clear_plugin uri_ok) -> all_scalar host = true -> "
+     "handle ps (utf8_encode (client_message (B \"clear\") [B \"all\"; host])) s = "
+     "({| hr_data := frame (B \"ok\") (Some (B \"cleared the caches on \" ++ utf8_encode host)); hr_close := false |}, s)"),
+]
+RULE = ("(a) direct calls of kvarn_utils::encode_quoted_str / quoted_str_split / join against the Coq model (correspondence) and, for the "
+        "round trip, against the specification 'the list itself' (oracle): ALL argument vectors over the alphabet {a, SP, \", ', \\} with one "
+        "argument up to length 6 (quick) / 8 (thorough), two arguments up to length 3 / 4 each, three arguments up to length 2, sampled longer "
+        "vectors; the splitter alone on ALL lines over that alphabet up to length 6 / 8 (lines no encoder produces: unbalanced quotes, "
+        "trailing backslashes) and on the unit-test lines; the ping plugin's fold and kvarnctl's message construction; seeded random Unicode "
+        "vectors (controls, Latin-1, BMP edges U+D7FF/U+E000/U+FFFF, astral, U+10FFFF). "
+        "(b) real unix-socket sessions: a kvarn instance (RunConfig::execute, set_ctl_path in a fresh directory under .run/<pid>/) "
+        "receives sequences of requests through kvarn_signal::unix::send_to: kvarnctl-encoded ping / plugin calls with random Unicode "
+        "arguments, raw lines, unknown commands, invalid UTF-8 (overlong, surrogate, > U+10FFFF, truncated), clear / shutdown argument errors, "
+        "plugins returning Error / no data / binary data / close, a stateful counter plugin, then requests after the close; every reply "
+        "(or its absence) is compared with the Coq model of the handler and listener. (c) the UTF-8 validator model against "
+        "core::str::from_utf8 on boundary byte sequences and mutations. "
+        "distinct_nontrivial counts distinct (component, input, model outcome) triples whose input contains a space, a quote, a backslash or "
+        "an empty string (direct part), every session, and every UTF-8 case with a byte >= 0x80")
+ASSUMPTIONS = [
+    "strings are lists of code points; the theorems hold for all lists of naturals, a superset of Rust strings; UTF-8 statements assume "
+    "Unicode scalar values (what a Rust char is)",
+    "one request = everything the client wrote before shutting down its write side, one reply = everything the server wrote before dropping "
+    "the connection (kvarn_signal's read_to_end framing, non-uring build); partial writes, the 100 ms re-listen after the socket file is "
+    "deleted, and the close sent by a shutdown initiated elsewhere are not modelled",
+    "requests are handled one after the other (the sessions are sequential); concurrent requests run in separate tasks in kvarn and are "
+    "not modelled",
+    "plugins are functions (arguments, state) -> (response, state); post_send callbacks are not modelled. reload and wait are replaced by "
+    "harmless plugins in the harness (reload would re-execute the harness binary, wait blocks until shutdown)",
+    "clear is modelled for an instance without ports (no host collection is consulted); http's Uri parser is a parameter uri_ok, "
+    "instantiated in the run by 'starts with / and consists of [a-z0-9/._-]' and only such paths are generated",
+    "Debug formatting ({arg:?}) in shutdown's error message is modelled for strings without control / non-printable characters; the "
+    "generator uses printable ASCII there",
+    "kvarnctl's message construction lives in a binary crate's main(); the harness repeats its fold statement for statement (quoted.client) "
+    "and the thorough tier runs the real kvarnctl binary against the socket",
+    "after a closing response the harness waits until the kernel no longer lists the listening socket (/proc/net/unix) before it sends the "
+    "next request: the short window in which the accept loop has not yet seen the close message is outside the property",
+]
+TRUSTED = ["modelled: utils/src/lib.rs encode_quoted_str, QuotedStrSplitIter::next, join; src/ctl.rs listen (handler closure, reply framing), "
+           "with_ping, with_shutdown, with_clear (argument handling); signal/src/lib.rs start_at accept loop (Listening/Closed); "
+           "ctl/src/main.rs message construction and reply reading",
+           "/proc/net/unix is used by the harness only to wait for the listener's start and stop"]
 EXHAUSTIVE = False
 
 SP, DQ, SQ, BS, A = 32, 34, 39, 92, 97
@@ -304,6 +387,10 @@ def spec_ok(c, i, s):
 
 
 def signature(c, m):
+    if c.comp == "ctl.session":
+        return m[:64]
+    if c.comp == "ctl.utf8":
+        return m[:24] if any(b >= 0x80 for b in c.x[1]) else None
     # non-trivial: the input contains a distinguished character or an empty string
     t = xtext(c.x)
     if any(("(N %d)" % k) in t for k in (SP, DQ, SQ, BS)) or "(L)" in t:
@@ -323,6 +410,17 @@ def directed(rng, mismatches):
     return cases
 
 
-LEVEL_TEXT = ""
-LEVEL_NOTE = ""
-TECHNIQUE = "Coq proof (model satisfies the round-trip and dispatch specification for all inputs) + differential correspondence model vs. implementation"
+LEVEL_TEXT = ("Machine-checked Coq theorems over a code-point-level model of encode_quoted_str / QuotedStrSplitIter (same state variables "
+              "quotes, current, escaped, closed_quote) and a byte-level model of the control-socket handler: split(join(map encode l)) = l for "
+              "ALL lists of ALL strings (by induction with an invariant on the splitter state), hence injectivity of the wire format, "
+              "kvarnctl's message arrives as (command, args), ping echoes exactly; UTF-8 decode(encode s) = s; the reply framing equation; "
+              "dispatch totality (not UTF-8 / unknown command / plugin Error => reply starts with 'error', plugin Ok => 'ok', kvarnctl reads that "
+              "word as first token); for every history and every plugin table the listener stays Listening and answers every request until a "
+              "response with close = true, and answers nothing afterwards. The model is tied to /repo on every run by a differential run of the "
+              "real functions (bounded-exhaustive over {a, SP, \", ', \\} + random Unicode) and of real unix-socket sessions against a running "
+              "kvarn instance.")
+LEVEL_NOTE = ("Trusted: Coq kernel, extraction (ExtrOcamlBasic) reduced by an in-kernel recheck sample, the hand transcription of "
+              "utils/src/lib.rs, src/ctl.rs, signal/src/lib.rs and ctl/src/main.rs into Model/Quoted.v and Model/Ctl.v as validated by the "
+              "differential run; tokio / the kernel's unix sockets are outside the theorems (sequential request/reply framing assumed). "
+              "The model describes the code after the repair of the empty-argument defect (fixed: line in known-findings.txt). No axioms.")
+TECHNIQUE = "Coq proof (model satisfies the round-trip and dispatch specification for all inputs and histories) + differential correspondence model vs. implementation"
